@@ -419,6 +419,32 @@ def runState (P : Params) : State → List Step → Except Fail State
     | .error f => .error f
     | .ok (c', _, _) => runState P c' rest
 
+/-! ## the literal (interleaved) loops
+
+`flushMemstore` and `MergeCompact` call `WriteNext` between two `Next` calls of their iterator.  The steps
+above collect the calls first; the literal loops are given here against the byte-level writer, and
+`SST.StackRefine.flush_loop_literal` / `compact_loop_literal` show that they produce the same writer state
+whenever the collected run is accepted (which `stack_no_step_fails` shows it always is). -/
+
+/-- `writer.WriteNext(k, v)` of the byte-level writer, fault-free, as an `Except` (for `Mem.flushLoop`) -/
+def sstWriteNext (cfg : SstCfg) (w : SstW) (k v : GoBytes) : Except WRes SstW :=
+  match w.writeNext cfg (k.getD []) v .none with
+  | (w', .ok) => .ok w'
+  | (_, r) => .error r
+
+/-- the loop of `MergeCompact` against the byte-level writer: iterator `Next`, then `WriteNext` -/
+def compactLoopSst (cfg : SstCfg) (endErr : Nat → Option Err) (reduce : Merge.ReduceFn) :
+    Nat → Merge.MCIter → SstW → Option Err × SstW
+  | 0, _, w => (some .other, w)
+  | fuel + 1, s, w =>
+    match Merge.mcNext endErr reduce s with
+    | (.done, _) => (none, w)
+    | (.err e, _) => (some e, w)
+    | (.item k v, s') =>
+      match w.writeNext cfg (k.getD []) v .none with
+      | (w', .ok) => compactLoopSst cfg endErr reduce fuel s' w'
+      | (w', _) => (some .rejected, w')
+
 /-! ## the L6 view of a program -/
 
 /-- `TotalBytes` of the live tables, as the readers' metadata report them -/
